@@ -4,7 +4,7 @@
 import json, multiprocessing as mp, shutil, subprocess, sys, tempfile
 from pathlib import Path
 
-VERIF = Path("/verif")
+VERIF = Path(__file__).resolve().parents[1]
 out = VERIF / "refactorings"
 SRC = Path("/tmp/refac")
 
